@@ -387,6 +387,9 @@ func TestCheck(t *testing.T) {
 		return
 	}
 	depth := 3
+	if kit.Thorough() {
+		depth = 4
+	}
 	var hists [][]string
 	var rec func(h []string)
 	rec = func(h []string) {
@@ -401,13 +404,10 @@ func TestCheck(t *testing.T) {
 	rec(nil)
 	shard, nshard := kit.Shard()
 	ps := pools()
-	// quick: every history of depth <= 2 and every 3rd of depth 3
+	// quick: every history of depth <= 3; thorough: depth <= 4
 	n := 0
-	for pi, p := range ps {
-		for hi, h := range hists {
-			if !kit.Thorough() && len(h) == 3 && hi%3 != pi%3 {
-				continue
-			}
+	for _, p := range ps {
+		for _, h := range hists {
 			n++
 			if n%nshard != shard {
 				continue
